@@ -116,7 +116,8 @@ class CheckC01(core.Check):
         nonces = None
         if stateless:
             nonces = [rnd.choice([0, 1, 2**32 - 1, 2**32, 2**63, 2**64 - 2, rnd.getrandbits(64) % (2**64 - 1)]) for _ in plan]
-        sessions.add_transport(c, parsed, [(d, "gen:%d:tp%d.%d" % (ln, seed, i)) for i, (d, ln) in enumerate(plan)], stateless=stateless, nonces=nonces)
+        rekey_at = tuple(i for i in range(len(plan)) if rnd.random() < 0.2)
+        sessions.add_transport(c, parsed, [(d, "gen:%d:tp%d.%d" % (ln, seed, i)) for i, (d, ln) in enumerate(plan)], stateless=stateless, nonces=nonces, rekey_at=rekey_at)
         c.info = {"name": name, "mode": "ss", "shape": (tuple(_cls(x) for x in pays), len(plan), stateless, res)}
         return c
 
